@@ -120,6 +120,7 @@ type View interface {
 	ChanShape(c int) []int64
 	// OneSample returns a fresh 1-channel 1-sample buffer holding the raw value of sample k.
 	OneSample(k int) View
+	WriteF64(vals []float64) int
 }
 
 type buf[T signal.SignalTypes] struct {
